@@ -1,5 +1,6 @@
 import IceModel.GatherCycle
 import IceSpec.C11
+import IceSpec.C11View
 import Driver.Util
 /-!
 Tie A for the gathering cycle: one op line per recorded history of ONE real agent (gather-once,
@@ -30,18 +31,7 @@ ufrag extension is ufrag number t, `n` OnCandidate(nil).
 namespace Driver.GatherCycle
 open IceModel.GatherCycle IceSpec.C11 Driver
 
-def parseTok (t : String) : Option GEv :=
-  let body := (t.drop 1).toString
-  match t.front with
-  | 'G' => body.toNat?.map .gather
-  | 'R' => body.toNat?.map .restart
-  | 'S' => body.toNat?.map (.state · false)
-  | 'P' => body.toNat?.map (.state · true)
-  | 'c' => body.toNat?.map .cand
-  | 'n' => if body.isEmpty then some .nil else none
-  | 'W' => if body.isEmpty then some .settle else none
-  | 'X' => if body.isEmpty then some .close else none
-  | _ => none
+def parseTok (t : String) : Option GEv := IceSpec.C11.View.parseGTok t
 
 /-- callbacks of the history, in order: `some t` candidate with tag t, `none` the nil candidate -/
 def callbacks (evs : List GEv) : List (Option Nat) :=
@@ -183,10 +173,8 @@ def accept (toks : List String) : String × Option String :=
     let (c0, ok0) := close cbs [{ st := IceModel.GatherCycle.init }]
     go c0 ok0 0 0 evs toks
 
-def monitor (needCand : Bool) (toks : List String) : Option String :=
-  match toks.mapM parseTok with
-  | none => some "unparsable history"
-  | some evs => monitorGather needCand evs
+/-- the string monitor of `IceSpec/C11View.lean` (`C11_view_roundtrip`) -/
+def monitor (needCand : Bool) (toks : List String) : Option String := IceSpec.C11.View.monitorGToks needCand toks
 
 def line (toks : List String) (_impl : String) : Res :=
   match toks with
